@@ -67,6 +67,7 @@ from ..shared.entity_type import EntityType
 from ..shared.exceptions import Geoh5FileClosedError
 from ..shared.utils import (
     as_str_if_utf8_bytes,
+    as_str_if_uuid,
     clear_array_attributes,
     get_attributes,
     str2uuid,
@@ -683,12 +684,32 @@ class Workspace(AbstractContextManager):
                 if rtype == "PropertyGroups":
                     # stored with their object: there is no container of their own to clear
                     continue
+                if rtype == "Types" and self._type_in_stored_records(key):
+                    # still named by concatenated data that are not loaded
+                    continue
                 self._io_call(
                     H5Writer.remove_entity, key, rtype, parent=self, mode="r+"
                 )
 
         for key in rem_list:
             del referents[key]
+
+    def _type_in_stored_records(self, uid: uuid.UUID) -> bool:
+        """
+        Whether the attribute records of a drillhole group name the type.
+        """
+        type_id = as_str_if_uuid(uid)
+        for ref in list(self._groups.values()):
+            group = ref()
+            if not isinstance(group, Concatenator):
+                continue
+            records = group.concatenated_attributes or {}
+            if any(
+                record.get("Type ID") == type_id
+                for record in records.get("Attributes", [])
+            ):
+                return True
+        return False
 
     def remove_recursively(self, entity: Entity | PropertyGroup):
         """Delete an entity and its children from the workspace and geoh5 recursively"""
